@@ -50,7 +50,8 @@ def run(ctx):
             dist["replay_ok"] += 1
         else:
             dist["replay_diverge"] += 1
-            ctx.broke("correspondence", "E-CONC lock-step bq mode=%s seed=%d env=%s" % (r["mode"], r["seed"], r["env"]), "%s\n%s" % (r["replay"], r["text"]))
+            if dist["replay_diverge"] <= 6:
+              ctx.broke("correspondence", "E-CONC lock-step bq mode=%s seed=%d env=%s" % (r["mode"], r["seed"], r["env"]), "%s\n%s" % (r["replay"], r["text"]))
         if not samples and r["mode"] == "mix" and 60 < len(r["lines"]) < 200:
             samples.append(r["lines"][:60])
     vruns, vdist = view_pass(ctx, "C01", 300, 3000)
